@@ -832,6 +832,25 @@ pub fn body_structure(rng: &mut Rng, depth: usize) -> BodyStructure<'static> {
             lines: num32(rng),
             extension: opt_ext(rng),
         },
+        _ if depth >= 3 && rng.chance(1, 5) => {
+            // wide rather than deep: tens of sibling parts, many of them multiparts themselves (a digest of
+            // forwarded messages); the depth stays small, only the count is large
+            let n = 33 + rng.below(16);
+            let bodies = (0..n)
+                .map(|_| {
+                    if rng.chance(3, 4) {
+                        BodyStructure::Multipart {
+                            common: common(rng, Cow::Borrowed("MULTIPART"), Cow::Borrowed("ALTERNATIVE")),
+                            bodies: (0..1 + rng.below(2)).map(|_| body_structure(rng, 0)).collect(),
+                            extension: None,
+                        }
+                    } else {
+                        body_structure(rng, 0)
+                    }
+                })
+                .collect();
+            BodyStructure::Multipart { common: common(rng, Cow::Borrowed("MULTIPART"), Cow::Borrowed("DIGEST")), bodies, extension: opt_ext(rng) }
+        }
         _ => BodyStructure::Multipart {
             common: { let st = str_any(rng); common(rng, Cow::Borrowed("MULTIPART"), st) },
             bodies: (0..1 + { let big = rng.chance(1, 6); rng.below(if big { 6 } else { 3 }) }).map(|_| body_structure(rng, depth - 1)).collect(),
